@@ -169,7 +169,7 @@ fn rand_value(rng: &mut Rng, tag: u64) -> Vec<u8> {
         0 => 1,
         1 => 4096 - 40,
         2 => 4096,
-        3 => rng.range(4000, 4200),
+        3 => rng.range(3900, 4200),
         4 => rng.range(8000, 8300),
         5 => rng.range(9000, 13000),
         _ => rng.range(1, 300),
